@@ -1,6 +1,121 @@
-(* Props/C11.v — placeholder while the harness is brought up; replaced by the full statements. *)
-From PNA Require Import Base Name Update.
+(* Props/C11.v — C11: append and update never lose or duplicate entries.
+   Only statements, closed by `exact`, pinned by `Check`, audited by `Print Assumptions`.
+
+   The model (Model/Update.v) is the code after the fix: commits ff5cb171 (non-target entries kept, matched
+   target removed from the items still to add), d6f70cbe (a target matches the entry it would be stored as)
+   and 82c7cf0b (stale further copies of a re-created name dropped).  An archive's logical content is the
+   ordered list of its entries (solid blocks and part boundaries flattened); the disk is seen through the
+   nodes the walker yields.  `wanted kd` is collect_items' filter (keep_dir || is_file), `fresh kt n` the entry
+   create_entry builds for node n.  The re-created entries are written after the kept ones (the code sends
+   them through the channel that also carries the new ones), which is the order the equations state.
+   Outside the model: symbolic links, ctime filters, the byte-level layout (C14/C01 areas). *)
+From PNA Require Import Base Name Update BaseFacts UpdateFacts.
+Open Scope N_scope.
+
+(* append: all previous entries unchanged, followed by the new ones *)
 Theorem C11_append_spec : forall a new, append a new = a ++ new.
-Proof. reflexivity. Qed.
+Proof. exact append_spec. Qed.
 Check C11_append_spec : forall a new, append a new = a ++ new.
 Print Assumptions C11_append_spec.
+
+Theorem C11_append_cmd_spec : forall kd kt a walk a',
+  append_cmd kd kt a walk = Ok a' -> a' = a ++ map (fresh kt) (filter (wanted kd) walk).
+Proof. exact append_cmd_spec. Qed.
+Check C11_append_cmd_spec : forall kd kt a walk a',
+  append_cmd kd kt a walk = Ok a' -> a' = a ++ map (fresh kt) (filter (wanted kd) walk).
+Print Assumptions C11_append_cmd_spec.
+
+(* update, the ordered-list equation (archives without duplicate names):
+   the entries that stay ++ the re-created ones in archive order ++ the targets not yet archived *)
+Theorem C11_update_spec : forall kd kt excl cond a walk a',
+  NoDup (names a) -> update_cmd kd kt excl cond a walk = Ok a' ->
+  let targets := filter (wanted kd) walk in
+  a' = filter (stays excl cond targets) a
+       ++ map (fresh kt) (flat_map (job excl cond targets) a)
+       ++ map (fresh kt) (filter (not_in a) targets).
+Proof. exact update_spec. Qed.
+Check C11_update_spec : forall kd kt excl cond a walk a',
+  NoDup (names a) -> update_cmd kd kt excl cond a walk = Ok a' ->
+  let targets := filter (wanted kd) walk in
+  a' = filter (stays excl cond targets) a
+       ++ map (fresh kt) (flat_map (job excl cond targets) a)
+       ++ map (fresh kt) (filter (not_in a) targets).
+Print Assumptions C11_update_spec.
+
+(* every entry not named for update is still present, unchanged, in the same relative order, and nothing
+   else appears among the unnamed paths — for EVERY archive, duplicates or not, any filter, any exclude *)
+Theorem C11_update_keeps_others : forall kd kt excl cond a walk a',
+  update_cmd kd kt excl cond a walk = Ok a' ->
+  filter (unnamed (filter (wanted kd) walk)) a' = filter (unnamed (filter (wanted kd) walk)) a.
+Proof. exact update_keeps_others. Qed.
+Check C11_update_keeps_others : forall kd kt excl cond a walk a',
+  update_cmd kd kt excl cond a walk = Ok a' ->
+  filter (unnamed (filter (wanted kd) walk)) a' = filter (unnamed (filter (wanted kd) walk)) a.
+Print Assumptions C11_update_keeps_others.
+
+(* every named path that exists on disk is present exactly once, with its current contents — for EVERY
+   archive (also one that already holds the path several times), when no filter / exclude holds it back;
+   the walked items name distinct entries (no overlapping file arguments) *)
+Theorem C11_update_exactly_once : forall kd kt a walk a' n,
+  update_cmd kd kt [] 0 a walk = Ok a' ->
+  NoDup (map node_name (filter (wanted kd) walk)) ->
+  In n (filter (wanted kd) walk) ->
+  filter (fun e => bytes_eqb (e_path e) (node_name n)) a' = [fresh kt n].
+Proof. exact update_exactly_once. Qed.
+Check C11_update_exactly_once : forall kd kt a walk a' n,
+  update_cmd kd kt [] 0 a walk = Ok a' ->
+  NoDup (map node_name (filter (wanted kd) walk)) ->
+  In n (filter (wanted kd) walk) ->
+  filter (fun e => bytes_eqb (e_path e) (node_name n)) a' = [fresh kt n].
+Print Assumptions C11_update_exactly_once.
+
+(* update keeps names unique *)
+Theorem C11_update_nodup : forall kd kt excl cond a walk a',
+  NoDup (names a) -> NoDup (map node_name (filter (wanted kd) walk)) ->
+  update_cmd kd kt excl cond a walk = Ok a' -> NoDup (names a').
+Proof. exact update_nodup. Qed.
+Check C11_update_nodup : forall kd kt excl cond a walk a',
+  NoDup (names a) -> NoDup (map node_name (filter (wanted kd) walk)) ->
+  update_cmd kd kt excl cond a walk = Ok a' -> NoDup (names a').
+Print Assumptions C11_update_nodup.
+
+(* any interleaving of create, append (of names not yet archived), update, delete and re-splitting, failing
+   steps included (they leave the archive as it was): no name is ever held twice *)
+Theorem C11_history_invariant : forall ops a, NoDup (names a) -> hist_ok a ops -> NoDup (names (final a ops)).
+Proof. exact history_invariant. Qed.
+Check C11_history_invariant : forall ops a, NoDup (names a) -> hist_ok a ops -> NoDup (names (final a ops)).
+Print Assumptions C11_history_invariant.
+
+Theorem C11_delete_spec : forall matched a,
+  delete matched a = filter (fun e => negb (mem (e_path e) matched)) a.
+Proof. exact delete_spec. Qed.
+Check C11_delete_spec : forall matched a,
+  delete matched a = filter (fun e => negb (mem (e_path e) matched)) a.
+Print Assumptions C11_delete_spec.
+
+(* D13, on the pass as it was before the fix: updating one file of three loses the other two and holds the
+   updated one twice *)
+Theorem C11_update_unrepaired_refuted :
+  exists a targets e, In e a /\ ~ In (e_path e) (map node_name targets)
+    /\ ~ In (e_path e) (names (update_orig false [] 0 a targets))
+    /\ names (update_orig false [] 0 a targets) = [lit "d/a"; lit "d/a"].
+Proof. exact update_unrepaired_loses. Qed.
+Check C11_update_unrepaired_refuted :
+  exists a targets e, In e a /\ ~ In (e_path e) (map node_name targets)
+    /\ ~ In (e_path e) (names (update_orig false [] 0 a targets))
+    /\ names (update_orig false [] 0 a targets) = [lit "d/a"; lit "d/a"].
+Print Assumptions C11_update_unrepaired_refuted.
+
+(* premises are satisfiable: the same input through the repaired command *)
+Example C11_premises_met :
+  NoDup (names d13_a) /\ NoDup (map node_name (filter (wanted false) d13_targets))
+  /\ update_cmd false false [] 0 d13_a d13_targets
+     = Ok [mkE (lit "d/b") 0 (lit "two") None; mkE (lit "d/c") 0 (lit "three") None; mkE (lit "d/a") 0 (lit "ONE2") None]
+  /\ hist_ok [] [OCreate false false d13_targets; OUpdate false false [] 0 d13_targets; ODelete [lit "d/a"]].
+Proof.
+  split; [|split; [|split]].
+  - repeat constructor; cbn; intuition discriminate.
+  - repeat constructor; cbn; intuition.
+  - vm_compute. reflexivity.
+  - cbn. repeat split; repeat constructor; cbn; intuition.
+Qed.
